@@ -3,9 +3,9 @@
    convexity or consistency between them is assumed.  `chain o l`: l is non-increasing and starts at or below o. *)
 From Coq Require Import Reals List String.
 From OV.base Require Import Num.
-From OV.model Require Import M_C06_Vec M_C06_CG M_C01_TR M_C01_CFG.
+From OV.model Require Import M_C06_Vec M_C06_CG M_C01_TR M_C01_CFG M_C01_Drv.
 From OV.gen Require Import CFG_TR.
-From OV.proofs Require Import L_C06_Vec L_C01 L_C01_F1 L_C01_CFG.
+From OV.proofs Require Import L_C06_Vec L_C01 L_C01_F1 L_C01_CFG L_C01_Drv L_C01_NaN.
 Import ListNotations.
 Local Open Scope R_scope.
 
@@ -83,16 +83,114 @@ Theorem C01_extracted_tree_shape :
   /\ tr_forbody = removelast tr_forbody ++ [SWhile tr_wcond tr_wbody].
 Proof. exact tr_shape. Qed.
 
+(* ---- the driver nonlinear_equation_solve (round 4).  model/M_C01_Drv.v interprets ITS syntax tree as extracted from /repo on every run
+   (gen/CFG_TR.v: cfg_nonlinear_equation_solve), with a meaning for the attribute store `objective.p = p`: the objective's oracles are
+   functions of the parameter value that is current when they are CALLED (any type P), update_precond remembers the parameter it was
+   built with, WarmStart.warm_start_increment is an arbitrary function of what it can read (old objective.p, preconditioner state, x, p),
+   the solver call binds positional / keyword / default arguments as Python does (solver_algorithm defaults to trust_region_minimize, read
+   off the tree) and hands over to `solver`, an arbitrary function here.
+   Theorem: for EVERY number type, parameter type, warm-start oracle, scaling (float or vector), solver, with or without callback, both
+   values of useWarmStart and updatePrecond and every state of the objective on entry, interpreting the extracted tree gives exactly the
+   hand-written closed form driver_hand (model/M_C01_Drv.v): returned point and flag, objective.p / preconditioner state afterwards and
+   the whole sequence of effects. *)
+Theorem C01_driver_is_the_extracted_source : forall (T : Type) (NT : Num T) (P : Type) (warm : P -> P -> list T -> list T -> P -> list T)
+    (scaling invScaling : scal T)
+    (solver : string -> fundef -> list (@val T) -> P -> P -> list T -> option (list T * bool * list (@rawev T) * list T))
+    (F0 : nat) (x0 : list T) (p : P) (has_cb uw up : bool) (par pcp : P) (xp : list T),
+  dresult_of (@drun_default T NT P warm scaling invScaling solver cfg_functions (20 + F0) cfg_nonlinear_equation_solve
+                x0 p (cb_val has_cb) uw up par pcp xp)
+  = @driver_hand T NT P warm scaling invScaling solver "trust_region_minimize" cfg_trust_region_minimize x0 p (cb_arg has_cb) uw up par pcp xp.
+Proof. exact (@driver_is_closed_form). Qed.
+
+(* "the parameters it was asked to solve for are installed before the solve, on every path": whenever the driver returns (success or
+   failure flag), objective.p is the requested p afterwards; everything before the store `objective.p = p` is an update_precond under
+   the OLD parameters (useWarmStart and updatePrecond); after it come only the optional update_precond under the NEW parameters and the
+   ONE solver call, made while objective.p = p; the driver returns that call's flag and invScaling * its point *)
+Theorem C01_driver_installs_requested_parameters_on_every_path : forall (T : Type) (NT : Num T) (P : Type)
+    (warm : P -> P -> list T -> list T -> P -> list T) (scaling invScaling : scal T)
+    (solver : string -> fundef -> list (@val T) -> P -> P -> list T -> option (list T * bool * list (@rawev T) * list T))
+    (F0 : nat) (x0 : list T) (p : P) (has_cb uw up : bool) (par pcp : P) (xp x : list T) (f : bool) (par' pcp' : P) (xp' : list T) tr,
+  dresult_of (@drun_default T NT P warm scaling invScaling solver cfg_functions (20 + F0) cfg_nonlinear_equation_solve
+                x0 p (cb_val has_cb) uw up par pcp xp) = Some (x, f, par', pcp', xp', tr) ->
+  par' = p /\
+  exists pre pcp2 xp2 xb1 xs ev,
+    tr = (pre ++ [DSetP p] ++ (if up then [DUpdatePrecond p xb1] else []) ++
+          [DSolve "trust_region_minimize" p pcp2 xp2 [VObj; VV xb1; VSet; cb_arg has_cb] xs f ev])%list /\
+    (forall e, In e pre -> exists y, e = DUpdatePrecond par y) /\
+    pcp2 = (if up then p else if uw then pcp else pcp) /\
+    x = smul invScaling xs /\
+    solver "trust_region_minimize" cfg_trust_region_minimize [VObj; VV xb1; VSet; cb_arg has_cb] p pcp2 xp2 = Some (xs, f, ev, xp').
+Proof. exact (@driver_installs_parameters). Qed.
+
+(* with the hand model of trust_region_minimize as the solver, over R, arbitrary oracles: when the driver reports success, the gradient
+   UNDER THE PARAMETERS IT WAS ASKED TO SOLVE FOR (grad p), at the point the solver returned (the driver returns invScaling * it), is
+   below tol -- whatever objective.p was on entry *)
+Theorem C01_driver_success_means_small_gradient_under_requested_parameters : forall (P : Type) (value : P -> list R -> R)
+    (grad : P -> list R -> list R) (hessvec : P -> list R -> list R -> list R) (precond mult_approx : P -> P -> list R -> list R -> list R)
+    (warm : P -> P -> list R -> list R -> P -> list R) (scaling invScaling : scal R) (S : settings R) (chk : bool) (fuel F0 : nat)
+    (x0 : list R) (p : P) (has_cb uw up : bool) (par pcp : P) (xp x : list R) (par' pcp' : P) (xp' : list R) tr,
+  dresult_of (@drun_default R NumR P warm scaling invScaling (@solver_hand R NumR P value grad hessvec precond mult_approx S chk fuel)
+                cfg_functions (20 + F0) cfg_nonlinear_equation_solve x0 p (cb_val has_cb) uw up par pcp xp) = Some (x, true, par', pcp', xp', tr) ->
+  par' = p /\ exists xBar, x = smul invScaling xBar /\ grad p xBar ⋅ grad p xBar < @tol2 R NumR S.
+Proof. exact driver_success_small_gradient. Qed.
+
+Example C01_driver_success_nonvacuous :
+  exists x tr, dresult_of (@drun_default R NumR unit (fun _ _ _ _ _ => []) (ScS 1) (ScS 1)
+     (@solver_hand R NumR unit (fun _ _ => 0) (fun _ _ => []) (fun _ _ _ => []) (fun _ _ _ v => v) (fun _ _ _ v => v) default_settings_R false 15)
+     cfg_functions (20 + 0) cfg_nonlinear_equation_solve [] tt (cb_val true) false false tt tt []) = Some (x, true, tt, tt, [], tr).
+Proof. exact driver_success_nonvacuous. Qed.
+
+(* ---- the NaN-rejection mechanism (round 4; clause "every reported iterate is finite", the part that is a property of the solver's
+   control flow).  For ANY number type with a predicate isnan such that -, unary - and / with a NaN first operand give a NaN and every
+   comparison < / <= with a NaN is false (the IEEE laws, as premises here): if the measured objective change is NaN -- in default mode
+   this is the case whenever the trial point's objective value is NaN -- then, whatever the model objective (both re-signing branches,
+   zero denominator included), the residual norms and the settings, the step is NOT accepted and the radius is multiplied by t1
+   (`not rho >= eta2` is true for a NaN rho: this is why the source writes it that way). *)
+Theorem C01_nan_change_is_rejected_and_shrinks : forall (T : Type) (NT : Num T) (isnan : T -> bool),
+  (forall a, isnan a = true -> isnan (nopp a) = true) -> (forall a b, isnan a = true -> isnan (ndiv a b) = true) ->
+  (forall a b, isnan a = true -> nltb a b = false) -> (forall a b, isnan b = true -> nltb a b = false) ->
+  (forall a b, isnan b = true -> nleb a b = false) ->
+  forall (S : settings T) (mo ro rn gn : T) (stepType : steptag) (tr : T), isnan ro = true ->
+  @will_accept T NT S (@rho_of T NT mo ro) rn gn = false /\ @new_radius T NT S (@rho_of T NT mo ro) stepType tr = nmul tr (s_t1 S).
+Proof. exact (@nan_change_rejected). Qed.
+
+(* the premises are theorems of binary64 (PrimFloat with Coq's FloatAxioms specification, isnan := PrimFloat.is_nan), so for the binary64
+   instance of the model -- the one executed against the implementation -- and ARBITRARY float-valued oracles and settings: *)
+Theorem C01_nan_change_is_rejected_and_shrinks_binary64 : forall (S : settings PrimFloat.float) (mo ro rn gn : PrimFloat.float) (stepType : steptag) (tr : PrimFloat.float),
+  PrimFloat.is_nan ro = true ->
+  @will_accept PrimFloat.float NumF S (@rho_of PrimFloat.float NumF mo ro) rn gn = false /\
+  @new_radius PrimFloat.float NumF S (@rho_of PrimFloat.float NumF mo ro) stepType tr = PrimFloat.mul tr (s_t1 S).
+Proof. exact nan_change_rejected_binary64. Qed.
+
+(* ... and along every run in default mode no Accept event carries a NaN objective value: a NaN-valued trial point is never accepted
+   (no assumption on the oracles: they may return NaN / inf anywhere) *)
+Theorem C01_nan_valued_point_is_never_accepted_binary64 : forall (value : list PrimFloat.float -> PrimFloat.float) (grad : list PrimFloat.float -> list PrimFloat.float)
+    (hessvec precond mult_approx : list PrimFloat.float -> list PrimFloat.float -> list PrimFloat.float) (S : settings PrimFloat.float) (fuel : nat) (x xp0 : list PrimFloat.float),
+  s_use_incremental S = false ->
+  Forall (fun e => match e with EAccept _ o => PrimFloat.is_nan o = false | _ => True end)
+         (snd (@trust_region_minimize PrimFloat.float NumF value grad hessvec precond mult_approx S fuel x xp0)).
+Proof. exact trm_no_nan_accept_binary64. Qed.
+
+Example C01_nan_premise_nonvacuous : PrimFloat.is_nan (PrimFloat.sub PrimFloat.nan (F 1 0)) = true.
+Proof. exact nan_hypothesis_satisfiable. Qed.
+
 (* NOT PROVED: (a) the same refutation over R (the evaluation of the whole first iteration over R by case analysis on ~25
    real comparisons did not fit the budget; the binary64 run above is exact because all data are small dyadics);
    (b) "on well-conditioned strictly convex problems with default settings it reports success at the unique minimizer":
    needs a quantitative global-convergence proof with the 100/50 iteration caps -- tested by L2 only;
-   (c) "every reported iterate is finite": a NaN/overflow statement about binary64, vacuous over R -- tested by L2 only;
+   (c) "every reported iterate is finite": the control-flow half is CLOSED in round 4 (a NaN objective value / NaN measured change is never
+   accepted and shrinks the radius: the three theorems above, generic + binary64).  Residue, tested by L2 only (streams nan-hole /
+   overflow): that the arithmetic producing the trial POINT y = x + d from finite data does not overflow to inf/NaN coordinates (a
+   quantitative binary64 range statement about CG / dogleg), the value +inf (rejected because rho = -inf, not covered by the NaN laws),
+   incremental mode (the objective value is not looked at there), and the converged exit, which returns a point whose VALUE may be NaN
+   when the gradient there is small (the convergence test precedes the acceptance test: finding F1's mechanism);
    (d) float-only corner: modelObjective = +0.0 makes the denominator -0.0 and flips the infinities (an uphill step with
    exactly zero predicted change would be accepted); over R the zero is unsigned.  The binary64 model reproduces it and the
    exact-switch stream of the harness probes it.
-   (e) the driver nonlinear_equation_solve (objective.p = p before the solve) is exercised by the harness, not modelled (its syntax
-   tree is extracted into gen/CFG_TR.v, but the interpreter has no semantics for the attribute store yet);
+   (e) CLOSED in round 4 for the driver's own code (three theorems above).  Residue: the last theorem has the HAND model of
+   trust_region_minimize as the solver; with the solver's own extracted tree (solver_tree) as the callee it needs item (f).  Both solvers
+   are run against each other and against the implementation by the harness (stream driver_model).  Exceptions (a raising solver or warm
+   start) are not modelled; that warm_start_increment does not modify the objective is checked syntactically on WarmStart.py by the harness;
    (f) the structural tie covers the inner `while` loop (all decisions of a trust-region pass).  The statements before it -- initial
    convergence test, Cauchy-point block, call of the CG sub-solver -- the outer `for` and the max-iterations exit are extracted and
    interpreted too, but their agreement with the hand model (propose / outer / trust_region_minimize) is only checked by running both on
@@ -110,3 +208,6 @@ Print Assumptions C01_trace_properties.
 Print Assumptions C01_inner_loop_terminates.
 Print Assumptions C01_converged_exit_can_go_uphill_refuted_binary64.
 Print Assumptions C01_inner_loop_is_the_extracted_source.
+Print Assumptions C01_driver_is_the_extracted_source.
+Print Assumptions C01_nan_valued_point_is_never_accepted_binary64.
+Print Assumptions C01_driver_success_means_small_gradient_under_requested_parameters.
